@@ -65,10 +65,23 @@ def strategy(tier):
     commit = st.tuples(st.just('commit'), st.integers(1, 1000), kf)
     timer = st.tuples(st.just('timer'))
     reopen = st.tuples(st.just('reopen'))
-    op = st.one_of(add, add, add, add, frm, to, clear, commit, timer, reopen, reopen)
+    # fill = a run of m small appends (equal or varying sizes): journals of many records, so that head and tail drops keep and drop
+    # several records each and the kept part can be smaller or larger than the dropped one
+    fill = st.tuples(st.just('fill'), st.integers(2, 12), st.integers(0, 1000), st.booleans(), st.integers(0, 2 ** 20))
+    op = st.one_of(add, add, add, add, fill, fill, frm, to, to, clear, commit, timer, reopen, reopen)
     n = 30 if tier == 'quick' else 60
+
+    def expand(ops):
+        out = []
+        for o in ops:
+            if o[0] == 'fill':
+                _, m, n0, equal, idx = o
+                out.extend(('add', 2, n0 if equal else n0 + 7 * i, idx + i, 1 + idx % 5, 0) for i in range(m))
+            else:
+                out.append(o)
+        return out
     return st.fixed_dictionaries({
-        'ops': st.lists(op, min_size=1, max_size=n),
+        'ops': st.lists(op, min_size=1, max_size=n).map(expand),
     })
 
 
